@@ -39,6 +39,12 @@ def build():
     checks, na = [], []
     META = load_meta()
     NA = load_na()
+    # only checks the integrator has vetted are claimed: one property id per line in REGISTERED
+    try:
+        reg = {l.strip() for l in open(os.path.join(ROOT, "REGISTERED")) if l.strip() and not l.startswith("#")}
+    except FileNotFoundError:
+        reg = set(META)
+    META = {k: v for k, v in META.items() if k in reg}
     for pid in props:
         if pid in META and pid not in NA:
             m = META[pid]
